@@ -288,8 +288,14 @@ func (r *Raft) onSnapshotTaken(t snapTaken) {
 		nowCompact, canCompact := t.meta.index, t.meta.index
 		if r.state == Leader {
 			for _, repl := range r.ldr.repls {
-				if repl.status.matchIndex < nowCompact {
-					nowCompact = repl.status.matchIndex
+				// the replication still reads the entry at matchIndex for
+				// prevLogTerm, unless that is the snapshot index itself
+				needed := repl.status.matchIndex
+				if needed > 0 && needed != t.meta.index {
+					needed--
+				}
+				if needed < nowCompact {
+					nowCompact = needed
 				}
 				if repl.status.noContact.IsZero() && repl.status.matchIndex < canCompact {
 					canCompact = repl.status.matchIndex
